@@ -241,6 +241,49 @@ def r5_trace_names(R) -> None:
     R.check(single, q, 'names-single-str', 'a str names exactly that one variable', 'no `[trace]` for a str argument', where=f.where(n))
 
 
+def r6_names_of_kept_trace(R) -> None:
+    """With reset=False the snapshots of a period accumulate in one Trace over repeated solves.  A Trace files each snapshot under
+    the names it was created with, so it may only be kept while the names being recorded are those names: the test that decides
+    between keeping and re-creating it must compare the two (a second solve with trace=['C', 'Y'] after trace=['Y', 'C'] would
+    otherwise file C's values under 'Y'; with lists of different length the append itself fails, an exception that only exists
+    because tracing is on)."""
+    q = f'{T}.trace_t'
+    f = Fn(R, q)
+    inits = [n for n in f.cfg.nodes if n.kind == 'stmt' and isinstance(n.ast, ast.Assign) and is_call(n.ast.value, 'Trace')
+             and isinstance(n.ast.targets[0], ast.Subscript)]
+    if not R.expect(q, len(inits), 1, 'creation of the Trace of period t'):
+        return
+    appends = f.nodes_with(lambda x: isinstance(x, ast.Call) and isinstance(x.func, ast.Attribute) and x.func.attr == 'append' and len(x.args) == 2)
+    if not appends:
+        raise Unsupported(f'{q}: no <trace>.append(label, values)')
+    ctor = inits[0].ast.value
+    names_arg = ctor.args[0] if ctor.args else None
+    names_roots = {x.id for x in ast.walk(names_arg) if isinstance(x, ast.Name)} if names_arg is not None else set()
+    ok = False
+    shown = []
+    for (tid, lab) in f.guards_of(inits[0].id):
+        tn = f.cfg.nodes[tid]
+        if tn.kind != 'test' or lab != 'T':
+            continue
+        from fsa.match import disj_atoms
+        for a in disj_atoms(tn.ast):
+            a2 = f.expand(tn.id, a)
+            shown.append(text(a)[:50])
+            if isinstance(a2, ast.UnaryOp) and isinstance(a2.op, ast.Not) and isinstance(a2.operand, ast.Compare) and len(a2.operand.ops) == 1 \
+                    and isinstance(a2.operand.ops[0], ast.Eq):
+                a2 = ast.Compare(left=a2.operand.left, ops=[ast.NotEq()], comparators=a2.operand.comparators)
+            if isinstance(a2, ast.Compare) and len(a2.ops) == 1 and isinstance(a2.ops[0], ast.NotEq):
+                sides = [a2.left, a2.comparators[0]]
+                has_old = [any(isinstance(x, ast.Attribute) and x.attr == 'names' and not (isinstance(x.value, ast.Name) and x.value.id == 'self') for x in ast.walk(s_)) for s_ in sides]
+                has_new = [bool({x.id for x in ast.walk(s_) if isinstance(x, ast.Name)} & names_roots) or (names_arg is not None and text(s_) in (text(names_arg),)) for s_ in sides]
+                if (has_old[0] and has_new[1]) or (has_old[1] and has_new[0]):
+                    ok = True
+    R.check(ok, q, 'kept-trace-has-these-names', 'an existing Trace is kept only if its names are the names being recorded',
+            f'the Trace of a period is re-created only under {shown or "?"}: on a second solve with other names (trace=[\'C\', \'Y\'] after trace=[\'Y\', \'C\']) the snapshots are '
+            f'appended to the Trace created for the first list, so the values of C are filed under \'Y\' (and lists of different length make the append raise ValueError, '
+            f'an exception the untraced call does not raise)', where=f.where(inits[0]))
+
+
 def r4_label_order(R) -> None:
     want = {
         'solve_t': [("'start'", 'before')],
@@ -291,6 +334,7 @@ def run(R) -> None:
     R.rule('C17.R3', lambda: r3_confinement(R))
     R.rule('C17.R4', lambda: r4_label_order(R))
     R.rule('C17.R5', lambda: r5_trace_names(R))
+    R.rule('C17.R6', lambda: r6_names_of_kept_trace(R))
 
 
 def run_thorough(R) -> None:
